@@ -13,6 +13,8 @@
 -/
 import Std.Data.HashMap
 import Gozod.Model.FormatSpec
+import Gozod.Model.FormatSpecV6
+import Gozod.Model.FormatSpecDT
 import Gozod.Model.GoParsers
 import Gozod.Gen.Regexes
 import Gozod.Drv.Loop
@@ -113,9 +115,9 @@ def optionFormats : List Format :=
 
 def formats : List Format := [
   ⟨"ipv4", Fmt.ipv4.run, Fmt.ipv4.run⟩,
-  ⟨"ipv6", Parsers.ipv6Spec, Parsers.ipv6Spec⟩,
+  ⟨"ipv6", Fmt.ipv6.run, Fmt.ipv6.run⟩,
   ⟨"cidrv4", Fmt.cidrv4.run, Parsers.goCIDRv4⟩,
-  ⟨"cidrv6", Parsers.cidrv6Spec, Parsers.goCIDRv6⟩,
+  ⟨"cidrv6", Fmt.cidrv6.run, Parsers.goCIDRv6⟩,
   ⟨"mac", (Fmt.mac 58).run, (Fmt.mac 58).run⟩,
   ⟨"macdash", (Fmt.mac 45).run, (Fmt.mac 45).run⟩,
   ⟨"base64", Fmt.base64.run, Fmt.base64.run⟩,
@@ -175,6 +177,12 @@ def handle (lives : List (String × Live)) : List String → String
                else l.vals.all (·.run bytes) && l.fmt.parser bytes
       let p := l.pats.all (·.run bytes)
       let s := l.fmt.spec bytes
+      -- a second, independently written reading of the same definition must agree (list-based RFC 4291 recogniser)
+      let s2 := match name with
+        | "ipv6" => Parsers.ipv6Spec bytes
+        | "cidrv6" => Parsers.cidrv6Spec bytes
+        | _ => s
+      if s != s2 then "spec-readings-differ" else
       s!"{b2s v}{b2s p} {b2s s}{b2s s}"
     | _, _ => "bad-op"
   | _ => "bad-op"
@@ -248,18 +256,23 @@ def pathTo (nodes : Array (PN S E × Nat × Nat)) (i : Nat) : List Nat := Id.run
     j := p
   return acc
 
-def mkCert (S E : Spec) (specText exclText reText jobName fmtName : String) (r0 : Re) : Outcome := Id.run do
-  -- 1. search for a distinguishing string over all bytes
-  let dAll := buildDfa r0 S.support
-  match explore S E dAll dAll.reps with
+def ppNats (l : List Nat) : String := "[" ++ ", ".intercalate (l.map toString) ++ "]"
+
+/-- `B` = bytes left out of the exploration (the statement then covers the strings without them), `L` = bytes outside
+    the format's alphabet that the pattern mentions (checked to kill every reachable derivative); both empty: `Cert.check` -/
+def mkCert (S E : Spec) (specText exclText reText jobName fmtName : String) (r0 : Re) (B L : List Nat := []) : Outcome := Id.run do
+  -- 1. search for a distinguishing string over all bytes (but those of `B`)
+  let dAll := buildDfa r0 (S.support ++ B)
+  match explore S E dAll (dAll.reps.filter fun b => !B.elem b) with
   | .error m => return .error m
   | .ok (nodes, some i) =>
     let s := pathTo nodes i
     return .differ s (Re.accepts r0 s) (S.run s)
   | .ok (_, none) => pure ()
   -- 2. the certificate: derivative automaton and product restricted to the alphabet
-  let sup := S.support.toArray
+  let sup := (S.support.filter fun b => !B.elem b).toArray
   let mut states : Array Re := #[r0]
+  let mut parents : Array (Nat × Nat) := #[]
   let mut index : Std.HashMap Re Nat := ({} : Std.HashMap Re Nat).insert r0 0
   let mut tbl : Array (Array Nat) := #[]
   let mut i := 0
@@ -275,6 +288,7 @@ def mkCert (S E : Spec) (specText exclText reText jobName fmtName : String) (r0 
         index := index.insert dr states.size
         row := row.push states.size
         states := states.push dr
+        parents := parents.push (i, c)
     tbl := tbl.push row
     i := i + 1
   let dSup : Dfa := { states, classOf := (Array.replicate 256 0), reps := sup, trans := tbl }
@@ -292,16 +306,26 @@ def mkCert (S E : Spec) (specText exclText reText jobName fmtName : String) (r0 
     -- keys must be distinct
     for k in [1:sorted.size] do
       if sorted[k]!.1 == sorted[k-1]!.1 then return .error "pair key collision"
-    let dTxt := "[" ++ ",\n    ".intercalate (states.toList.map ppRe) ++ "]"
+    -- big patterns: the derivative states are computed by the kernel (Cert.buildD) instead of spelled out
+    let dTxt := if B.isEmpty && L.isEmpty then "[" ++ ",\n    ".intercalate (states.toList.map ppRe) ++ "]"
+      else s!"buildD {reText} [" ++ ", ".intercalate (parents.toList.map fun (i, c) => s!"({i},{c})") ++ "]"
     let tTxt := "[" ++ ", ".intercalate (tbl.toList.map fun row => "[" ++ ",".intercalate (row.toList.map toString) ++ "]") ++ "]"
     let tree := buildTree S E sorted 0 sorted.size
+    let specModule := if (specText.splitOn "dtTail").length > 1 then "Gozod.Model.FormatSpecDT" else if (specText.splitOn "ipv6").length > 1 || (specText.splitOn "cidrv6").length > 1 then "Gozod.Model.FormatSpecV6"
+      else "Gozod.Model.FormatSpec"
+    let lText := if L == Fmt.nonHexLetters then "Fmt.nonHexLetters" else ppNats L
+    -- the checker wants every `L` byte to kill every derivative
+    for r in states do
+      for b in L do
+        if !Re.isNone (Re.deriv b r) then return .error s!"byte {b} of L does not kill a reachable derivative"
     let text :=
       "/-\n  GENERATED by driver_c20 --emit-cert from Gen/Regexes.lean — do not edit.\n" ++
       s!"  Bisimulation certificate: {reText} against {specText} (excluded region: {exclText}).\n" ++
       s!"  {states.size} derivative states, {nodes.size} product states.\n-/\n" ++
-      s!"import Gozod.Model.FormatSpec\nimport Gozod.Gen.Re_{fmtName}\nnamespace Gozod.Gen\nopen Gozod\n\n" ++
+      s!"import {specModule}\nimport Gozod.Gen.Re_{fmtName}\nnamespace Gozod.Gen\nopen Gozod\n\n" ++
       s!"noncomputable def cert_{jobName} : Cert ({specText}) ({exclText}) where\n  D := {dTxt}\n  tbl := {tTxt}\n  tree := {tree}\n\n" ++
-      s!"theorem cert_{jobName}_ok : Cert.check {reText} cert_{jobName} = true := by decide +kernel\n\nend Gozod.Gen\n"
+      (if B.isEmpty && L.isEmpty then s!"theorem cert_{jobName}_ok : Cert.check {reText} cert_{jobName} = true := by decide +kernel\n\nend Gozod.Gen\n"
+       else s!"theorem cert_{jobName}_ok : Cert.checkR {ppNats B} ({lText}) {reText} cert_{jobName} = true := by decide +kernel\n\nend Gozod.Gen\n")
     return .cert text states.size nodes.size
 
 structure Job where
@@ -316,6 +340,10 @@ def job (name : String) (S : Spec) (specText reText : String) (r0 : Re) : Job :=
 
 def jobE (name : String) (S E : Spec) (specText exclText reText : String) (r0 : Re) : Job :=
   ⟨name, fun _ => mkCert S E specText exclText reText name (fmtOf reText) r0⟩
+
+/-- certificate over the strings that contain no byte of `B` -/
+def jobR (name : String) (S : Spec) (specText reText : String) (r0 : Re) (B L : List Nat) : Job :=
+  ⟨name, fun _ => mkCert S Spec.never specText "Spec.never" reText name (fmtOf reText) r0 B L⟩
 
 def lookupRe (name : String) (which : Nat) (pat : Bool) : Re :=
   match Gen.table.lookup name with
@@ -347,8 +375,31 @@ def jobs : List Job := [
   job "tmo_2" (Fmt.isoTimeOpt (.digits 2)) "Fmt.isoTimeOpt (.digits 2)" "val_tmo_2" (lookupRe "tmo_2" 0 false),
   job "tmo_3" (Fmt.isoTimeOpt (.digits 3)) "Fmt.isoTimeOpt (.digits 3)" "val_tmo_3" (lookupRe "tmo_3" 0 false),
   job "tmo_9" (Fmt.isoTimeOpt (.digits 9)) "Fmt.isoTimeOpt (.digits 9)" "val_tmo_9" (lookupRe "tmo_9" 0 false),
+  job "ipv6" Fmt.ipv6 "Fmt.ipv6" "val_ipv6" (lookupRe "ipv6" 0 false),
+  job "cidrv6" Fmt.cidrv6 "Fmt.cidrv6" "pat_cidrv6" (lookupRe "cidrv6" 0 true),
+  -- without the zone byte '%': the shortest difference in the dotted-quad forms
+  jobR "ipv6_nopct" Fmt.ipv6 "Fmt.ipv6" "val_ipv6" (lookupRe "ipv6" 0 false) [37] Fmt.nonHexLetters,
+  jobR "cidrv6_nopct" Fmt.cidrv6 "Fmt.cidrv6" "pat_cidrv6" (lookupRe "cidrv6" 0 true) [37] Fmt.nonHexLetters,
+  -- without '%' and '.': the pattern is RFC 4291
+  jobR "ipv6_partial" Fmt.ipv6Hex "Fmt.ipv6Hex" "val_ipv6" (lookupRe "ipv6" 0 false) [46, 37] Fmt.nonHexLetters,
+  jobR "cidrv6_partial" Fmt.cidrv6Hex "Fmt.cidrv6Hex" "pat_cidrv6" (lookupRe "cidrv6" 0 true) [46, 37] Fmt.nonHexLetters,
   jobE "isodatetime_partial" (Fmt.isoDateTimeQ false) Fmt.isoDateTimeNoSecQ "Fmt.isoDateTimeQ false" "Fmt.isoDateTimeNoSecQ" "pat_isodatetime" (lookupRe "isodatetime" 0 true),
   jobE "base64url_partial" Fmt.base64url Fmt.base64urlBadLen "Fmt.base64url" "Fmt.base64urlBadLen" "pat_base64url" (lookupRe "base64url" 0 true)]
+
+/-- the tails of the date-time patterns (what follows the ten bytes of the date): one small certificate per option set -/
+def tailJobs : List Job :=
+  (precs.flatMap fun (pl, p) =>
+    [false, true].flatMap fun off => [false, true].map fun loc =>
+      let b (x : Bool) := if x then "1" else "0"
+      let pt := match p with
+        | .any => ".any" | .minute => ".minute" | .digits n => s!"(.digits {n})"
+      let fmt := s!"dto_{pl}_{b off}_{b loc}"
+      (⟨s!"dtt_{pl}_{b off}_{b loc}", fun _ =>
+        mkCert (Fmt.dtTail p off loc) Spec.never s!"Fmt.dtTail {pt} {off} {loc}" "Spec.never" s!"(Re.seqTail val_{fmt})"
+          s!"dtt_{pl}_{b off}_{b loc}" fmt (Re.seqTail (lookupRe fmt 0 false))⟩ : Job))
+  ++ [⟨"dtt_rfc_optsec", fun _ =>
+        mkCert (Fmt.dtTailRfc true) Spec.never "Fmt.dtTailRfc true" "Spec.never" "(Re.seqTail pat_isodatetime)"
+          "dtt_rfc_optsec" "isodatetime" (Re.seqTail (lookupRe "isodatetime" 0 true))⟩]
 
 def hexOf (s : List Nat) : String :=
   if s.isEmpty then "-" else
@@ -361,7 +412,7 @@ def writeIfChanged (path : System.FilePath) (text : String) : IO Unit := do
 
 def emitCerts (dir status : String) (only : List String) : IO UInt32 := do
   let mut lines : Array String := #[]
-  for j in jobs do
+  for j in jobs ++ tailJobs do
     if !only.isEmpty && !only.contains j.name then continue
     match j.run () with
     | .cert text nd np =>
